@@ -37,6 +37,7 @@ def ops : List (String × (List String → String)) := [
       (if lockOrderOk Gen.LockFacts.lockRank Gen.LockFacts.nestedEdges then []
        else Gen.LockFacts.nested.map fun n => "lock-order-cycle:" ++ n.1 ++ ":" ++ n.2.1 ++ ">" ++ n.2.2.1) ++
       ((Gen.LockFacts.goSites.filter (fun g => !goOk g)).map fun g => "go:" ++ g.fn ++ "@" ++ g.file ++ ":" ++ toString g.line) ++
+      ((Gen.LockFacts.looseSync.filter (fun l => l.2.2.1 == "leak")).map fun l => "lock-leak:" ++ l.1 ++ ":" ++ l.2.1 ++ "@" ++ l.2.2.2.2) ++
       (if tempExcl Gen.LockFacts.tempFile then [] else ["tempfile:flags=" ++ toString Gen.LockFacts.tempFile.flags])
     toString bad.length ++ (if bad.isEmpty then "" else " " ++ " ".intercalate (bad.map fun s => s.replace " " "_"))),
   ("facts.summary", fun _ =>
